@@ -706,6 +706,21 @@ theorem cols_overlap_disagree :
     getCellStyle ⟨[], [⟨1, 3, 5⟩, ⟨2, 2, 7⟩]⟩ 2 1 = 5 ∧ getColStyle ⟨[], [⟨1, 3, 5⟩, ⟨2, 2, 7⟩]⟩ 2 = 7 := by
   decide
 
+/-- every xf record in a registry reachable from `NewFile()` has the shape `setCellXfs` writes: all
+four component ids present, apply flags of font / fill / border never `false`, alignment and
+protection stored consistently with their flags (the invariant a read-back theorem for FOUND styles
+needs; that theorem itself is not proved) -/
+theorem xf_shape_history (ss : List Style) : ShapeOk (runNew initReg ss) := by
+  suffices H : ∀ r, WF r → ShapeOk r → ShapeOk (runNew r ss) from H _ wf_init shape_init
+  induction ss with
+  | nil => intro r _ h; exact h
+  | cons s t ih =>
+    intro r w h
+    simp only [runNew]
+    split
+    · rename_i r' _ _ hn; exact ih r' (newStyle_spec w hn).2.1 (newStyle_shape w h hn)
+    · exact ih r w h
+
 /-! ### non-vacuity and the positive cases -/
 
 /-- a plain definition is deduplicated and read back (bold font, solid fill, border, protection,
